@@ -1386,6 +1386,16 @@ fn serve() -> i32 {
 /// `vcheck worker C03 serve`: everything, including every call of the
 /// implementation's decoder, runs on one thread with a 2 MiB stack.
 pub fn worker(args: &[String]) -> i32 {
+    if args.first().map(String::as_str) == Some("serve-tokio") {
+        // the same loop on a worker thread of a tokio multi-thread runtime with its
+        // default (2 MiB) thread stack, inside a spawned task: what the server does
+        let rt = match tokio::runtime::Builder::new_multi_thread().worker_threads(1).enable_all().build() {
+            Ok(rt) => rt,
+            Err(_) => return 2,
+        };
+        let h = rt.spawn(async { serve() });
+        return rt.block_on(h).unwrap_or(3);
+    }
     if args.first().map(String::as_str) != Some("serve") {
         return 2;
     }
@@ -1417,6 +1427,18 @@ struct Proc {
 }
 
 static STACK_KIB_FOR_MEASUREMENT: std::sync::atomic::AtomicUsize = std::sync::atomic::AtomicUsize::new(0);
+static CHILD_ON_TOKIO_WORKER: std::sync::atomic::AtomicBool = std::sync::atomic::AtomicBool::new(false);
+
+/// The deepest pointer ladders decoded where the server decodes: in a task on a worker
+/// thread of a tokio multi-thread runtime (default 2 MiB stack).  Some(text) = the
+/// child died or hung.
+fn deepest_ladders_on_a_tokio_worker() -> Option<String> {
+    let inputs: Vec<Vec<u8>> = (0u8..3).map(|k| ladder(max_ladder_depth(k), k, 0)).collect();
+    CHILD_ON_TOKIO_WORKER.store(true, std::sync::atomic::Ordering::SeqCst);
+    let r = run_fresh(&x_request(&inputs), Duration::from_secs(60));
+    CHILD_ON_TOKIO_WORKER.store(false, std::sync::atomic::Ordering::SeqCst);
+    failed(&r)
+}
 
 /// Information for the reader, never a verdict: the smallest thread stack (in
 /// steps of 32 KiB, from 2 MiB down) on which the deepest pointer ladders still
@@ -1455,7 +1477,8 @@ fn spawn_child() -> Option<Proc> {
 fn spawn_child_opt(trace: bool) -> Option<(Proc, Option<std::thread::JoinHandle<Vec<u8>>>)> {
     let exe = std::env::current_exe().ok()?;
     let mut cmd = Command::new(exe);
-    cmd.args(["worker", "C03", "serve"])
+    let mode = if CHILD_ON_TOKIO_WORKER.load(std::sync::atomic::Ordering::SeqCst) { "serve-tokio" } else { "serve" };
+    cmd.args(["worker", "C03", mode])
         .stdin(Stdio::piped())
         .stdout(Stdio::piped())
         .stderr(if trace { Stdio::piped() } else { Stdio::null() });
@@ -2079,6 +2102,25 @@ pub fn run(ctx: &Ctx) -> i32 {
     report.outcome_histogram = t.hist.clone();
     if failures.is_empty() {
         report.extra.insert("stack_headroom".into(), measure_stack_headroom());
+        match deepest_ladders_on_a_tokio_worker() {
+            None => {
+                report.extra.insert("deepest_ladders_on_a_tokio_worker_thread".into(), json!("decoded (or refused) without the process dying"));
+            }
+            Some(how) if how.starts_with("machinery") => {
+                eprintln!("C03: machinery error: {how}");
+                return 2;
+            }
+            Some(how) => report.violations.push(Violation {
+                clause: "abnormal-exit".into(),
+                summary: format!(
+                    "the deepest pointer ladders ({} / {} hops), decoded in a task on a tokio worker thread (2 MiB stack, as in the server): {how}",
+                    max_ladder_depth(0),
+                    max_ladder_depth(1)
+                ),
+                replay: json!({"kind": "tokio-worker-ladders"}),
+                slug: None,
+            }),
+        }
     }
     report.extra.insert("nontrivial_not_deduplicated".into(), json!(t.nontrivial_other));
     report.extra.insert("violation_counts".into(), json!(t.viol_counts));
@@ -2095,6 +2137,19 @@ pub fn run(ctx: &Ctx) -> i32 {
 
 pub fn replay(ctx: &Ctx, v: &Value) -> i32 {
     let timeout = Duration::from_secs(60);
+    if v["kind"] == "tokio-worker-ladders" {
+        return match deepest_ladders_on_a_tokio_worker() {
+            None => {
+                println!("the deepest ladders decode on a tokio worker thread without the process dying");
+                0
+            }
+            Some(how) => {
+                println!("deepest ladders on a tokio worker thread: {how}");
+                println!("VIOLATION property={} replay=(replayed case)", ctx.id);
+                1
+            }
+        };
+    }
     if v["kind"] == "wire-job" {
         let space = Space::parse(v["space"].as_str().unwrap_or("")).unwrap_or(Space::Short);
         let tier = if v["tier"] == "thorough" { Tier::Thorough } else { Tier::Quick };
